@@ -271,7 +271,11 @@ impl<'a> ExprAST<'a> {
                     "false".into()
                 }
             }
-            String(value) => "\"".to_string() + &value + "\"",
+            String(value) => {
+                // a string token never contains its own delimiter, so one of the two quotes is free
+                let quote = if value.contains('"') { "'" } else { "\"" };
+                quote.to_string() + &value + quote
+            }
         }
     }
 
@@ -293,14 +297,37 @@ impl<'a> ExprAST<'a> {
     }
 
     fn unary_expr(&self, op: &'a str, rhs: &ExprAST) -> String {
-        op.to_string() + " " + &rhs.expr()
+        if rhs.is_prefix_operand() {
+            op.to_string() + " " + &rhs.expr()
+        } else {
+            op.to_string() + " (" + &rhs.expr() + ")"
+        }
+    }
+
+    // an operand of a prefix or postfix operator must be a primary
+    fn operand_expr(&self) -> String {
+        match self {
+            Self::Binary(..) | Self::Ternary(..) | Self::Unary(..) | Self::Postfix(..) => {
+                "(".to_string() + &self.expr() + ")"
+            }
+            _ => self.expr(),
+        }
+    }
+
+    fn is_prefix_operand(&self) -> bool {
+        match self {
+            Self::Binary(..) | Self::Ternary(..) => false,
+            _ => true,
+        }
     }
 
     fn binary_expr(&self, op: &'a str, lhs: &ExprAST, rhs: &ExprAST) -> String {
+        let (l_bp, r_bp) = InfixOpManager::new().get_precidence(op);
         let left = {
             let (is, precidence) = lhs.get_precidence();
             let mut tmp: String = lhs.expr();
-            if is && precidence < InfixOpManager::new().get_precidence(op) {
+            // the left operand keeps its operator only if that operator does not lose `op` to its own right side
+            if (is && precidence.1 < l_bp) || lhs.is_ternary() {
                 tmp = "(".to_string() + &lhs.expr() + &")".to_string();
             }
             tmp
@@ -308,7 +335,8 @@ impl<'a> ExprAST<'a> {
         let right = {
             let (is, precidence) = rhs.get_precidence();
             let mut tmp = rhs.expr();
-            if is && precidence < InfixOpManager::new().get_precidence(op) {
+            // the right operand is captured only if its operator binds tighter than `op` from the right
+            if (is && !(r_bp < precidence.0)) || rhs.is_ternary() {
                 tmp = "(".to_string() + &rhs.expr() + &")".to_string();
             }
             tmp
@@ -316,12 +344,24 @@ impl<'a> ExprAST<'a> {
         left + " " + op + " " + &right
     }
 
+    fn is_ternary(&self) -> bool {
+        match self {
+            Self::Ternary(..) => true,
+            _ => false,
+        }
+    }
+
     fn postfix_expr(&self, lhs: &ExprAST, op: &str) -> String {
-        lhs.expr() + " " + op
+        lhs.operand_expr() + " " + op
     }
 
     fn ternary_expr(&self, condition: &ExprAST, lhs: &ExprAST, rhs: &ExprAST) -> String {
-        condition.expr() + " ? " + &lhs.expr() + " : " + &rhs.expr()
+        let cond = if condition.is_ternary() {
+            "(".to_string() + &condition.expr() + ")"
+        } else {
+            condition.expr()
+        };
+        cond + " ? " + &lhs.expr() + " : " + &rhs.expr()
     }
 
     fn list_expr(&self, params: Vec<ExprAST>) -> String {
